@@ -185,6 +185,9 @@ def c02_plan(driver, w, snap, ev, res):
     if driver.spec.get('netfail', True):
         # environment answer: one command that talks to the remote fails
         devs += [['netfail', i] for i in net_commands(obs)]
+        # ... or one call to the git host API fails (HTTP 503), once
+        devs += [['apifail', i] for i, m in enumerate(mut)
+                 if m[0] != 'push']
     # reference: the uninterrupted run, the event being re-delivered (the
     # delivery is at-least-once) until the destinations no longer move
     ref_sts = []
@@ -217,6 +220,15 @@ def c02_run(driver, w, snap, ev, dev, ctx):
         w.mut_hook = hook
     elif dev[0] == 'netfail':
         w.cmd_hook = netfail_hook(dev[1], {})
+    elif dev[0] == 'apifail':
+        n = dev[1]
+
+        def hook(idx, kind, descr, n=n):
+            if idx == n and kind != 'push':
+                import requests
+                raise requests.exceptions.HTTPError(
+                    '503 Server Error: Service Unavailable (%s)' % descr)
+        w.mut_hook = hook
     else:
         install_reject(w, dev[1])
     try:
